@@ -280,6 +280,52 @@ def _run(env):
                         o = outcome(lambda: bool(pub.verify(pgpy.PGPMessage.from_blob(mblob))))
                         ctx.case('carrier', ('lit-mut', fmt, f2, body, ob, st))
                         if not falsy(o): ctx.fail('carrier', 'signed message verifies although its literal holds other octets (%r for %r)' % (ob[:16], body[:16]), {'op': 'carrier', 'msg': mblob.hex()})
+    # a user id in another Unicode composition (same glyphs, other octets) is another user id: the certification does not cover it
+    from .keys import get as _get2
+    kk = _get2('ed25519')
+    import unicodedata
+    for name in ['Jos\u00e9 N\u00fa\u00f1ez', 'Jose\u0301 Nu\u0301n\u0303ez', '\u212bngstr\u00f6m \u2126', 'Zo\u00eb \ufb01sher']:
+        uu = pgpy.PGPUID.new(name, email='u@example.com')
+        kk.add_uid(uu, usage={pgpy.constants.KeyFlags.Sign}, created=t(9400))
+    kblob = bytes(kk.pubkey)
+    kp2 = S.split_packets(kblob)
+    for idx, x in enumerate(kp2):
+        if x[0] != 13:
+            continue
+        txt = x[1].decode('utf-8')
+        for form in ('NFC', 'NFD', 'NFKC', 'NFKD'):
+            alt = unicodedata.normalize(form, txt).encode('utf-8')
+            if alt == x[1]:
+                continue
+            newpkt = S.new_header(13, len(alt)) + alt
+            # a key holding ONLY this identity: primary key packet, the re-spelled user id, the signatures that followed the original one
+            j = idx + 1
+            while j < len(kp2) and kp2[j][0] == 2:
+                j += 1
+            kb2 = kp2[0][2] + newpkt + b''.join(y[2] for y in kp2[idx + 1:j])
+            def chk2():
+                k2 = pgpy.PGPKey.from_blob(kb2)[0]
+                (u2,) = list(k2.userids)
+                sigs2 = [sg_ for sg_ in u2.__sig__ if sg_.signer == k2.fingerprint.keyid]
+                return len(sigs2) > 0 and any(bool(k2.verify(u2, sg_)) for sg_ in sigs2)
+            o = outcome(chk2)
+            ctx.case('carrier', ('uid-composition', txt, form))
+            if not falsy(o): ctx.fail('carrier', 'self-certification verifies over the user id re-spelled in %s (other octets)' % form, {'op': 'carrier', 'key': kb2.hex()})
+    # one message, two signatures: an OLDER one by the primary key over ANOTHER document, a newer genuine one by the signing subkey
+    ksub = _get2('ed25519')
+    subs = [sk for sk in ksub.subkeys.values() if int(sk.key_algorithm) == 22]
+    if subs:
+        good_doc, other_doc = b'the document in the message', b'another document'
+        so1 = outcome(lambda: subs[0].sign(good_doc, created=t(9501)))
+        if so1[0] == 'ok':
+            bad1 = ksub.sign(other_doc, created=t(9500))
+            mm = pgpy.PGPMessage.new(good_doc, compression=pgpy.constants.CompressionAlgorithm.Uncompressed)
+            mm |= bad1
+            mm |= so1[1]
+            for order, blob2 in (('as built', bytes(mm)),):
+                o = outcome(lambda: bool(ksub.pubkey.verify(pgpy.PGPMessage.from_blob(blob2))))
+                ctx.case('carrier', ('bad-primary-then-good-subkey', order))
+                if not falsy(o): ctx.fail('carrier', 'a message with a non-matching signature by the primary key verifies because a later subkey signature is good', {'op': 'carrier', 'msg': blob2.hex()})
     # certification inside a key: alter the user id octets in the exported key
     kb = bytes(pub)
     kp = S.split_packets(kb)
